@@ -42,14 +42,20 @@ class PermBM:
 
 def scenario(task):
     import torchsde
-    st, method, nt, opts, d, m, nb = task
+    st, method, nt, opts, d, m, nb = task[:7]
+    logqp = task[7] if len(task) > 7 else False
     mm = e1.noise_dim(nt, d, m)
     mk = sdes.Maker(symbolic=True, seed=51)
-    sde = sdes.PolySDE(mk, st, nt, d=d, m=mm, degt=1, degy=2)
-    bm = sdes.KeyedBM(mk, nb, mm, levy=sdes.levy_for(method))
+    sde = sdes.PolySDE(mk, st, nt, d=d, m=mm, degt=1, degy=2, with_h=logqp)
+    bm = sdes.KeyedBM(mk, nb, mm + (1 if (logqp and nt == 'diagonal') else 0), levy=sdes.levy_for(method))
     y0 = mk('y0', (nb, d), values=0.3 + 0.1 * np.arange(nb * d).reshape(nb, d))
     ts = torch.tensor([0.0, 0.13, 0.2], dtype=torch.float64)
-    ys = torchsde.sdeint(sde, y0, ts, bm=bm, method=method, dt=0.1, options=dict(opts))
+    kw = dict(logqp=True) if logqp else {}
+    ys = torchsde.sdeint(sde, y0, ts, bm=bm, method=method, dt=0.1, options=dict(opts), **kw)
+    lq = None
+    if logqp:
+        ys, lq = ys
+        validate(lq, mk.env, 1e-7)
     validate(ys, mk.env, 1e-8)
     Zc = e1.Z()
     bad = []
@@ -64,6 +70,13 @@ def scenario(task):
                 sup = dag.support(node, smemo)
                 for v in sorted(u for u in sup if row_of(u) not in (None, b)):
                     work.append((ti, b, k, node, v, sup))
+    if lq is not None:           # the log-ratio of row b is part of row b's solution
+        for ti in range(lq.shape[0]):
+            for b in range(nb):
+                node = lq.sym[ti, b]
+                sup = dag.support(node, smemo)
+                for v in sorted(u for u in sup if row_of(u) not in (None, b)):
+                    work.append((f'logqp {ti}', b, 0, node, v, sup))
     for ti, b, k, node, v, sup in work:
         # a generic rational point near the base point (the base point itself is degenerate: e.g. A = Ax - Ax^T = 0 there)
         at = {u: dag.lift(Fraction(mk.env[u]).limit_denominator(1000) + Fraction(i + 1, 89)) for i, u in enumerate(sorted(sup)) if u != v}
@@ -80,7 +93,9 @@ def scenario(task):
     # permutation: swap rows 0 and 1 of y0 and of the Brownian motion
     perm = [1, 0] + list(range(2, nb))
     y0p = y0.index_select(0, torch.tensor(perm))
-    ysp = torchsde.sdeint(sde, y0p, ts, bm=PermBM(bm, perm), method=method, dt=0.1, options=dict(opts))
+    ysp = torchsde.sdeint(sde, y0p, ts, bm=PermBM(bm, perm), method=method, dt=0.1, options=dict(opts), **kw)
+    if logqp:
+        ysp = ysp[0]
     want = ys.sym[:, perm, :]
     simp = {}
     for x, y in zip(ysp.sym.reshape(-1), want.reshape(-1)):
@@ -148,6 +163,9 @@ def brownian_task(task):
 
 def tasks_for(tier):
     T = [(st, method, nt, opts, 2, 2, 2) for st, method, nt, opts in e1.all_forward_configs()]
+    # with the log-ratio output (its own code path: pseudo-inverse / stable division per row)
+    T += [('ito', 'euler', nt, {}, 2, m_, 2, True) for nt, m_ in (('diagonal', 2), ('scalar', 1), ('additive', 2), ('general', 1), ('general', 2))]
+    T += [('stratonovich', 'midpoint', 'scalar', {}, 2, 1, 2, True)]
     if tier != 'quick':
         T += [(st, method, nt, opts, 2, 2, 3) for st, method, nt, opts in e1.all_forward_configs(grad_free=False)]
     return T
@@ -163,7 +181,7 @@ def run(ctx):
     tasks = tasks_for(ctx.tier)
     for t, (st_, res) in zip(tasks, pmap(scenario, tasks)):
         gf = ',grad_free' if t[3].get('grad_free') else ''
-        name = f"{t[0]},{t[1]},{t[2]}{gf} batch={t[6]}"
+        name = f"{t[0]},{t[1]},{t[2]}{gf} batch={t[6]}" + (f" logqp m={t[5]}" if len(t) > 7 and t[7] else "")
         if st_ != 'ok':
             ctx.inconc(name, str(res)[:500]); continue
         ctx.paths += 1; ctx.queries += res['queries']; ctx.solver_s += res['solver_s']; ctx.validated += 2
@@ -172,7 +190,7 @@ def run(ctx):
         what, r = res['bad'][0]
         if r == 'unknown':
             ctx.inconc(name, what); continue
-        ctx.violation(f"{t[0]},{t[1]},{t[2]}{gf}|rows", what, replay=dict(task=[t[0], t[1], t[2], t[3], t[4], t[5], t[6]]))
+        ctx.violation(f"{t[0]},{t[1]},{t[2]}{gf}|rows" + ('|logqp' if len(t) > 7 and t[7] else ''), what, replay=dict(task=list(t)))
     ctx.sample({'solver scenarios': len(tasks)})
     bt = [('none', (2,), 1), ('space-time', (2, 2), 1), ('davie', (2, 2), 1), ('foster', (2, 2), 0)]
     for t, (st_, res) in zip(bt, pmap(brownian_task, bt)):
@@ -244,23 +262,29 @@ def replay(data):
             if other_rows.numel() and float(other_rows.max()) > 1e-12:
                 bad = True
         return bad
-    st, method, nt, opts, d, m, nb = r['task']
+    st, method, nt, opts, d, m, nb = r['task'][:7]
+    logqp = r['task'][7] if len(r['task']) > 7 else False
     mm = e1.noise_dim(nt, d, m)
     mk = sdes.Maker(symbolic=False, seed=51)
-    sde = sdes.PolySDE(mk, st, nt, d=d, m=mm, degt=1, degy=2)
+    sde = sdes.PolySDE(mk, st, nt, d=d, m=mm, degt=1, degy=2, with_h=logqp)
+    mb = mm + (1 if (logqp and nt == 'diagonal') else 0)
     ts = torch.tensor([0.0, 0.13, 0.2], dtype=torch.float64)
 
     def solve(y0, seed_rows):
         class RowBM(torchsde.BaseBrownian):
-            shape = (nb, mm); dtype = torch.float64; device = torch.device('cpu'); levy_area_approximation = sdes.levy_for(method)
-            def __init__(s): s.bms = [torchsde.BrownianInterval(0., 0.2, size=(1, mm), dtype=torch.float64, entropy=sd, levy_area_approximation=sdes.levy_for(method)) for sd in seed_rows]
+            shape = (nb, mb); dtype = torch.float64; device = torch.device('cpu'); levy_area_approximation = sdes.levy_for(method)
+            def __init__(s): s.bms = [torchsde.BrownianInterval(0., 0.2, size=(1, mb), dtype=torch.float64, entropy=sd, levy_area_approximation=sdes.levy_for(method)) for sd in seed_rows]
             def __call__(s, ta, tb=None, return_U=False, return_A=False):
                 rs = [b(ta, tb, return_U=return_U, return_A=return_A) for b in s.bms]
                 if isinstance(rs[0], tuple):
                     return tuple(torch.cat([x[i] for x in rs], dim=0) for i in range(len(rs[0])))
                 return torch.cat(rs, dim=0)
             def __repr__(s): return 'RowBM'
-        return torchsde.sdeint(sde, y0, ts, bm=RowBM(), method=method, dt=0.1, options=dict(opts))
+        out = torchsde.sdeint(sde, y0, ts, bm=RowBM(), method=method, dt=0.1, options=dict(opts), **(dict(logqp=True) if logqp else {}))
+        if logqp:          # append the log-ratio increments as one more state column (first row of zeros) so rows are compared together
+            ys_, lq_ = out
+            return torch.cat([ys_, torch.cat([torch.zeros_like(lq_[:1]), lq_], dim=0).unsqueeze(-1)], dim=-1)
+        return out
     y0 = torch.tensor(0.3 + 0.1 * np.arange(nb * d).reshape(nb, d))
     a = solve(y0, list(range(1, nb + 1)))
     y0b = y0.clone(); y0b[1:] += 0.7
